@@ -89,7 +89,8 @@ def scenarios(rng, n, tier):
 
 
 def specs(r):
-    qs = []
+    from .. import aiomix
+    qs = aiomix.probe_specs(r)
     scn = r["scn"]
     gone_at = {}     # key -> instant after which no start may happen
     for i, (o, ob) in enumerate(zip(scn["ops"], r["obs"])):
